@@ -11,6 +11,9 @@ import (
 	"time"
 )
 
+// SlowLog, when set, is called for every query that takes more than a second.
+var SlowLog func(tag string, d time.Duration, nasserts int)
+
 type Result int
 
 const (
@@ -40,6 +43,7 @@ type Solver struct {
 	Preamble string
 	kind    string
 	Errors  int
+	Tag     string // set by the caller for diagnostics
 }
 
 // NewSolver starts bin ("z3-new", "z3", "cvc5").
@@ -209,7 +213,14 @@ func (s *Solver) Check(asserts []*Term, timeoutMs int) (Result, error) {
 		}
 	}
 	start := time.Now()
-	defer func() { s.Time += time.Since(start); s.Queries++ }()
+	defer func() {
+		d := time.Since(start)
+		s.Time += d
+		s.Queries++
+		if SlowLog != nil && d > time.Second {
+			SlowLog(s.Tag, d, len(asserts))
+		}
+	}()
 	var sb strings.Builder
 	for _, a := range asserts {
 		s.emit(&sb, a)
